@@ -691,9 +691,9 @@ template <class T, unsigned B> void const_mask_one()
   vrt::nontrivial(B == 0 || B + 1 == sizeof(T) * 8);
   constexpr T one = static_cast<T>(static_cast<T>(1) << B);
   constexpr T inv = static_cast<T>(~one);
-  constexpr fcppt::bit::mask<T> sm = fcppt::bit::shifted_mask_c<T, fcppt::bit::shift_count{B}>();
-  constexpr fcppt::bit::mask<T> m1 = fcppt::bit::mask_c<T, one>();
-  constexpr fcppt::bit::mask<T> m2 = fcppt::bit::mask_c<T, inv>();
+  fcppt::bit::mask<T> const sm = fcppt::bit::shifted_mask_c<T, fcppt::bit::shift_count{B}>();
+  fcppt::bit::mask<T> const m1 = fcppt::bit::mask_c<T, one>();
+  fcppt::bit::mask<T> const m2 = fcppt::bit::mask_c<T, inv>();
   VRT_CHECK(sm.get() == one, n + ":shifted_mask_c", "bit %u: 0x%llx", B, (unsigned long long)sm.get());
   VRT_CHECK(m1.get() == one && m2.get() == inv, n + ":mask_c", "bit %u: 0x%llx 0x%llx", B, (unsigned long long)m1.get(), (unsigned long long)m2.get());
   for (unsigned b = 0; b < sizeof(T) * 8; ++b)
